@@ -117,6 +117,16 @@ def r12_2(ctx, R):
                             in_loop_ok = False  # a marking loop of its own: more than one token per yielded item
         ctx.ob("R12.2", b, "mark-caller-role", role is not None and in_loop_ok, b.loc(ss[0][0]), "role: %s" % role)
     ctx.floor("R12.2", "mark-callers", k, 3)
+    # the crate never invokes a child's slot waker itself (that would be an enqueue without a push or a child wake)
+    import roles as _roles
+    for b in ctx.facts.fn_bodies():
+        allw = direct_sites(b, _roles.RE_WAKE)
+        if not allw:
+            continue
+        task = {x[0] for x in R.task_wake_sites(b)}
+        for bb, t, fn in allw:
+            ctx.ob("R12.2", b, "wake-call-is-on-the-caller's-task-waker@%s" % _site_label(b, bb), bb in task, b.loc(bb),
+                   "receiver %s" % expr_str(strip_refs(ctx.flow(b).operand_expr(t["args"][0]))))
     c01.r1_6(ctx, R)
     ctx.rule("R1.6", "see C01 R1.6 (shared): the merge re-arm marks exactly the slot that yielded")
 
